@@ -32,14 +32,15 @@ inductive RRes
     facts built in here: bytes come from the head of the receive buffer, in order, at most `cap`;
     0 (EOF) is returned only when the buffer is empty and the peer has shut down; an empty buffer
     with an open peer is EAGAIN.  `none` = no scripted outcome left: the natural full read. -/
+def kfull (kbuf : List Byte) (peerShut : Bool) (cap k : Nat) : RRes × List Byte :=
+  let n := min k (min cap kbuf.length)
+  if n = 0 then (if kbuf.isEmpty && peerShut then (.eof, kbuf) else (.eagain, kbuf))
+  else (.data (kbuf.take n), kbuf.drop n)
+
 def kread (kbuf : List Byte) (peerShut : Bool) (cap : Nat) (o : Option Outcome) : RRes × List Byte :=
-  let full (k : Nat) : RRes × List Byte :=
-    let n := min k (min cap kbuf.length)
-    if n = 0 then (if kbuf.isEmpty && peerShut then (.eof, kbuf) else (.eagain, kbuf))
-    else (.data (kbuf.take n), kbuf.drop n)
   match o with
-  | none => full cap
-  | some (.ok k) => full k
+  | none => kfull kbuf peerShut cap cap
+  | some (.ok k) => kfull kbuf peerShut cap k
   | some .eagain => (.eagain, kbuf)
   | some .eintr => (.eagain, kbuf)        -- not reachable through `skipEintr`
   | some (.err e) => if e = 11 ∨ e = 4 ∨ e = 0 then (.eagain, kbuf) else (.err e, kbuf)   -- `err` = errno other than EAGAIN/EINTR
@@ -141,34 +142,40 @@ def callReadCb (u : User) (s : St) (nread : Int) (buf : Option Nat) (bytes : Lis
 def streamEof (u : User) (s : St) (buf : Option Nat) : St :=
   callReadCb u { s with readEof := true, reading := false, pollin := false } UV_EOF buf []
 
+/-- one iteration of the `while` loop of uv__read (its condition already checked), stream.c:1049-1155;
+    the Bool says whether control reaches the loop condition again (`true`) or uv__read returns -/
+def readRound (u : User) (s : St) : St × Bool :=
+  let id := s.nAlloc
+  let sz := u.allocS id
+  let s := emit { s with nAlloc := id + 1 } (.alloc id sz)
+  if sz = 0 then
+    (callReadCb u s UV_ENOBUFS (some id) [], false)                  -- 1053-1057
+  else
+    let sk := skipEintr s.oracle                                     -- 1062-1082
+    let kr := kread s.kbuf s.peerShut sz sk.2.1
+    let s := { s with oracle := sk.2.2, nSys := s.nSys + sk.1, kbuf := kr.2 }
+    match kr.1 with
+    | .eagain =>                                                     -- 1086-1092
+      let s := if s.reading then { s with pollin := true } else s
+      (callReadCb u s 0 (some id) [], false)
+    | .err e =>                                                      -- 1098-1109
+      let s := callReadCb u { s with readable := false, writable := false } (-(e : Int)) (some id) []
+      (if s.reading then { s with reading := false, pollin := false } else s, false)
+    | .eof => (streamEof u s (some id), false)                       -- 1110-1112
+    | .data bs =>                                                    -- 1113-1155
+      let s := callReadCb u s bs.length (some id) bs
+      -- "didn't fill the buffer, there is no more data": not for IPC pipes, where the kernel ends a
+      -- read at the boundary of a descriptor-carrying message (1150-1157)
+      if bs.length < sz && !s.ipc then ({ s with readPartial := true }, false)
+      else (s, true)
+
 /-- the `while` loop of uv__read, stream.c:1046-1156; `count` = iterations left -/
 def readLoop (u : User) : Nat → St → St
   | 0, s => s
   | count + 1, s =>
     if !(s.hasCb && s.reading) then s else
-    let id := s.nAlloc
-    let sz := u.allocS id
-    let s := emit { s with nAlloc := id + 1 } (.alloc id sz)
-    if sz = 0 then
-      callReadCb u s UV_ENOBUFS (some id) []                        -- 1053-1057
-    else
-      let sk := skipEintr s.oracle                                   -- 1062-1082
-      let kr := kread s.kbuf s.peerShut sz sk.2.1
-      let s := { s with oracle := sk.2.2, nSys := s.nSys + sk.1, kbuf := kr.2 }
-      match kr.1 with
-      | .eagain =>                                                   -- 1086-1092
-        let s := if s.reading then { s with pollin := true } else s
-        callReadCb u s 0 (some id) []
-      | .err e =>                                                    -- 1098-1108
-        let s := callReadCb u { s with readable := false, writable := false } (-(e : Int)) (some id) []
-        if s.reading then { s with reading := false, pollin := false } else s
-      | .eof => streamEof u s (some id)                              -- 1110-1112
-      | .data bs =>                                                  -- 1113-1155
-        let s := callReadCb u s bs.length (some id) bs
-        -- "didn't fill the buffer, there is no more data": not for IPC pipes, where the kernel ends a
-        -- read at the boundary of a descriptor-carrying message (1150-1157)
-        if bs.length < sz && !s.ipc then { s with readPartial := true }
-        else readLoop u count s
+    let r := readRound u s
+    if r.2 then readLoop u count r.1 else r.1
 
 /-- uv__read, stream.c:1025-1157 -/
 def uvRead (u : User) (s : St) : St := readLoop u 32 { s with readPartial := false }
